@@ -111,6 +111,9 @@ func typedTree(c *Ctx, pkg typedPkg, seed int64, level int) {
 			ids  []int
 		}
 		uraw := map[string][]rawcb{} // the untyped callbacks as they came, foreign objects included (for the model)
+		tmask := map[string][][2]string{} // typed handler with only some callbacks set
+		umask := map[string][][2]string{} // unitary handler with only some callbacks set
+		masks := map[string][2]int{}
 		var tmons, umons []kcache.Monitor
 		addMonitors := func(name string, t *tctl, u kcache.Publisher) bool {
 			tm, err := t.unitary(pert.Log(), func(w string, id int) {
@@ -155,7 +158,28 @@ func typedTree(c *Ctx, pkg typedPkg, seed int64, level int) {
 				OnCreate(func(o metav1.Object) { raw(0, o); urec("create", o) }).
 				OnUpdate(func(o metav1.Object) { raw(1, o); urec("update", o) }).
 				OnDelete(func(o metav1.Object) { raw(2, o); urec("delete", o) }).Create())
-			tmons = append(tmons, tm)
+			// the same with handlers that have only some of their callbacks set
+			mk := [2]int{int(seed+int64(len(tmons))*5) % 16, int(seed/3+int64(len(tmons))*7) % 16}
+			masks[name] = mk
+			tm2, err := t.monitorMask(mk[0], func(w string, ids []int) {
+				cbMu.Lock()
+				tmask[name] = append(tmask[name], [2]string{w, fmt.Sprint(ids)})
+				cbMu.Unlock()
+			})
+			if err != nil {
+				fail("typed NewMonitor with a partial handler on %s failed: %v", name, err)
+				return false
+			}
+			tm3, err := t.unitaryMask(pert.Log(), mk[1], func(w string, id int) {
+				cbMu.Lock()
+				umask[name] = append(umask[name], [2]string{w, fmt.Sprint(id)})
+				cbMu.Unlock()
+			})
+			if err != nil {
+				fail("typed NewMonitor with a partial unitary handler on %s failed: %v", name, err)
+				return false
+			}
+			tmons = append(tmons, tm, tm2, tm3)
 			umons = append(umons, um)
 			return true
 		}
@@ -224,6 +248,40 @@ func typedTree(c *Ctx, pkg typedPkg, seed int64, level int) {
 			}
 			cbMu.Lock()
 			for _, p := range ctls {
+				// partial handlers: what the untyped monitor was called with, restricted
+				// to the type and to the callbacks that are set
+				var wantT, wantU [][2]string
+				names := []string{"create", "update", "delete", "init"}
+				for _, r := range uraw[p.name] {
+					own := restrictIDs(r.ids)
+					if r.what == 3 {
+						if masks[p.name][0]&1 != 0 {
+							sorted := append([]int{}, own...)
+							sort.Ints(sorted)
+							wantT = append(wantT, [2]string{"init", fmt.Sprint(sorted)})
+						}
+						if masks[p.name][1]&1 != 0 && len(own) == 1 {
+							wantU = append(wantU, [2]string{"init", fmt.Sprint(own[0])})
+						}
+						continue
+					}
+					if len(own) == 0 {
+						continue
+					}
+					bit := 2 << uint(r.what)
+					if masks[p.name][0]&bit != 0 {
+						wantT = append(wantT, [2]string{names[r.what], fmt.Sprint(own)})
+					}
+					if masks[p.name][1]&bit != 0 {
+						wantU = append(wantU, [2]string{names[r.what], fmt.Sprint(own[0])})
+					}
+				}
+				if fmt.Sprint(canonCb(tmask[p.name])) != fmt.Sprint(canonCb(wantT)) {
+					fail("%s: a typed handler with callbacks %04b (bits: delete update create initialise) on %s saw %v; the untyped callbacks restricted to the type and to these callbacks are %v", when, masks[p.name][0], p.name, tmask[p.name], wantT)
+				}
+				if fmt.Sprint(canonCb(umask[p.name])) != fmt.Sprint(canonCb(wantU)) {
+					fail("%s: a unitary typed handler with callbacks %04b on %s saw %v; expected %v", when, masks[p.name][1], p.name, umask[p.name], wantU)
+				}
 				if fmt.Sprint(canonCb(tcb[p.name])) != fmt.Sprint(canonCb(ucb[p.name])) {
 					fail("%s: the unitary typed handler on %s saw %v, an untyped handler on the twin (initialise only with exactly one object) %v", when, p.name, tcb[p.name], ucb[p.name])
 				}
@@ -282,6 +340,8 @@ func typedTree(c *Ctx, pkg typedPkg, seed int64, level int) {
 		}
 		for i := range tmons {
 			tmons[i].Close()
+		}
+		for i := range umons {
 			umons[i].Close()
 		}
 		pert.Barrier()
